@@ -12,10 +12,13 @@
 (*      terminal focus out/in) and every step it produces must be accepted  *)
 (*      by the oracle (Routing!StepWhy = "").  From oracle states the       *)
 (*      alternation of enter/leave follows.                                 *)
+(*      Shape "H" is tree A with widget 2 (and so its child 4) left out of  *)
+(*      the frame: focus on an undrawn widget, and the refocus at a frame.  *)
 (* MC_Routing_asfound.cfg switches the transcription to the code as found;  *)
-(* TLC must refute Conforms there.                                          *)
+(* MC_Routing_staletarget.cfg to a dispatch whose target is the end of the  *)
+(* path; TLC must refute Conforms in both.                                  *)
 EXTENDS Integers, Sequences, FiniteSets, TLC
-CONSTANTS StalePath, AllSiblings, EnterOnFocusIn, Depth, Shapes
+CONSTANTS StalePath, AllSiblings, EnterOnFocusIn, StaleTarget, Depth, Shapes
 
 R == INSTANCE Routing
 I == INSTANCE RoutingImpl
@@ -23,17 +26,19 @@ I == INSTANCE RoutingImpl
 VARIABLES T, im, st, n, why
 vars == <<T, im, st, n, why>>
 
-G(x, y, w, h, z) == [x |-> x, y |-> y, w |-> w, h |-> h, z |-> z]
+G(x, y, w, h, z) == [x |-> x, y |-> y, w |-> w, h |-> h, z |-> z, hid |-> FALSE]
 
 (* 1 -> {2 -> {4}, 3}; 3 overlaps 2 (and 4) and is above it *)
 TreeA(caps) == [n |-> 4, parent |-> <<0, 1, 1, 2>>, caps |-> caps,
                 lays |-> <<<<G(0, 0, 8, 4, 0), G(1, 1, 4, 3, 0), G(3, 1, 4, 2, 1), G(1, 0, 3, 2, 0)>>>>]
+(* tree A in a layout that does not draw 2 (nor, hence, its child 4) *)
+TreeH(caps) == [TreeA(caps) EXCEPT !.lays[1][2].hid = TRUE]
 (* a chain 1 -> 2 -> 3 *)
 TreeB(caps) == [n |-> 3, parent |-> <<0, 1, 2>>, caps |-> SubSeq(caps, 1, 3),
                 lays |-> <<<<G(0, 0, 6, 3, 0), G(1, 1, 4, 2, 0), G(1, 0, 2, 2, 0)>>>>]
 Points == {<<0, 0>>, <<1, 1>>, <<2, 1>>, <<4, 2>>, <<6, 2>>, <<9, 9>>}
 
-Trees == {IF s = "A" THEN TreeA(c) ELSE TreeB(c) : s \in Shapes, c \in [1..4 -> BOOLEAN]}
+Trees == {CASE s = "A" -> TreeA(c) [] s = "H" -> TreeH(c) [] OTHER -> TreeB(c) : s \in Shapes, c \in [1..4 -> BOOLEAN]}
 
 Consumers(t) == {<<>>} \cup {<<w, ph>> : w \in 1..t.n, ph \in {"cap", "tgt", "bub"}}
 
@@ -57,8 +62,10 @@ Next ==
           Do([t |-> "mouse", cls |-> "mp0", x |-> p[1], y |-> p[2]], I!Mouse(T, im, T.lays[1], p[1], p[2], "mp0", c))
      \/ Do([t |-> "tfout", cls |-> "tfout"], I!TFocusOut(im))
      \/ Do([t |-> "tfin", cls |-> "tfin"], I!TFocusIn(im))
-     \/ \* a frame (forced by a redraw nobody else sees): the oracle only notes that focus has settled
-        /\ im' = I!Frame(T, im) /\ st' = [st EXCEPT !.moved = FALSE] /\ why' = ""
+     \/ \* a frame (forced by a redraw nobody else sees)
+        LET fr == I!Frame(T, im)
+            e  == [items |-> <<[w |-> 0, ph |-> "", cls |-> "draw", ret |-> I!Nil]>> \o fr.offers, lay |-> 1, full |-> -1]
+        IN /\ why' = R!FrameWhy(T, st, e) /\ st' = R!FrameNext(st, e) /\ im' = fr.im
 
 Spec == Init /\ [][Next]_vars
 
